@@ -24,6 +24,7 @@ fn main() {
         "tamper" => h::eng_tamper::main(rest),
         "format" => h::eng_format::main(rest),
         "fault" => h::eng_fault::main(rest),
+        "conf" => h::eng_conf::main(rest),
         e => {
             eprintln!("unknown engine {e}");
             std::process::exit(2);
